@@ -266,7 +266,7 @@ int main(int argc, char** argv) {
 
     if (c.cmd == "gen") {
         u64 rs = run_seed(c.seed, c.prop, (u64)c.start);
-        Plan p = gen::make(c.prop, rs, (int)c.start);
+        Plan p = gen::make(c.prop, rs, (int)(c.start % 1000000));
         fputs(p.text().c_str(), stdout);
         return 0;
     }
@@ -277,7 +277,7 @@ int main(int argc, char** argv) {
         if (!Plan::parse(read_file(c.plan_path), last)) { fprintf(stderr, "cannot parse plan %s\n", c.plan_path.c_str()); return 3; }
         Plan all = last; all.ops.clear(); all.ntasks = env::MAXT;
         for (long r = c.start + c.worker; r < c.runs; r += c.nworkers) {
-            Plan p = gen::make(c.prop, run_seed(c.seed, c.prop, (u64)r), (int)r);
+            Plan p = gen::make(c.prop, run_seed(c.seed, c.prop, (u64)r), (int)(r % 1000000));
             all.ops.insert(all.ops.end(), p.ops.begin(), p.ops.end());
             // what the end-of-run teardown did: release every seed (operations on empty slots are skipped)
             for (int t = 0; t < env::MAXT; ++t) for (int sl = 0; sl < 8; ++sl) { Op f; f.kind = OP_FREE; f.task = t; f.slot = sl; all.ops.push_back(f); }
@@ -326,7 +326,7 @@ int main(int argc, char** argv) {
     for (long r = c.start + c.worker; r < c.start + c.runs; r += c.nworkers) {
         if (c.budget_s > 0 && now_s() - t0 > c.budget_s) break;
         u64 rs = run_seed(c.seed, c.prop, (u64)r);
-        Plan p = gen::make(c.prop, rs, (int)r);
+        Plan p = gen::make(c.prop, rs, (int)(r % 1000000));
         printf("START %ld\n", r); fflush(stdout);
         alarm(120);        // uninstrumented builds have no step budget: a call that never returns ends the worker, the driver replays the run
         u64 lh = 0; bool nt = false; int ops_run = 0;
